@@ -31,6 +31,9 @@ type Env struct {
 	hdrBlock    interface{}
 	phiOverride map[*ssa.Phi]Val
 	inQuant     bool // under a quantifier: no side assumptions may be emitted (they would mention bound variables)
+	// skolems: ghost constants (declared "skolem" in a contract) that evaluate to the given bound variable: used when a
+	// clause the callee proved for the arbitrary constant is assumed, at a call site, for all its values
+	skolems map[string]*Term
 }
 
 type specTranslation struct {
@@ -801,6 +804,9 @@ func (e *Env) evalCall(n *ECall) SVal {
 		// sliceof(arr, off, len)
 		need(3)
 		return SVal{T: mk(SSlice, fmt.Sprintf("(mk-slice %s %s %s)", arg(0).T.S, arg(1).T.S, arg(2).T.S))}
+	}
+	if t, ok := e.skolems[n.Fn]; ok && len(n.Args) == 0 {
+		return SVal{T: t}
 	}
 	// ghost function
 	if g, ok := c.prog.Ghosts[n.Fn]; ok {
